@@ -176,7 +176,12 @@ impl<'a> SendLastStateProofProcess<'a> {
             let start_number: BlockNumber = original_request.get_content().start_number().unpack();
             last_n_count == 0 || headers[reorg_count].number() == start_number
         };
-        if sampled_count != 0 || !is_continuous_with_start {
+        //
+        // The check compares the new last header with the previous proved header, so it is only
+        // meaningful if the previous proved header is on the same chain: not when reorg headers
+        // are returned, and not for the proof from the genesis block after a long fork is detected.
+        let is_same_chain = reorg_count == 0 && !original_request.if_long_fork_detected();
+        if (sampled_count != 0 || !is_continuous_with_start) && is_same_chain {
             if let Some(prove_state) = peer_state.get_prove_state() {
                 let prev_last_header = prove_state.get_last_header();
                 let start_header = prev_last_header.header();
